@@ -176,6 +176,8 @@ func checkC02(p *Prog, r *Report) {
 			} else {
 				rPayload.Bad(c, posOf(wcall), "the line is not followed by exactly one newline")
 			}
+		} else if lineNLBytes(payload, recvVal) {
+			rPayload.OK(c, posOf(wcall), "append(append(buf[:0], line...), '\\n'): the received line and one newline")
 		} else if nil == payload {
 			rPayload.Unproven(c, posOf(wcall), "write idiom %s not recognised", calleeName(wcall.Common()))
 		} else {
@@ -982,6 +984,20 @@ func checkBidirJoined(p *Prog, r *Report, ru *Rule) {
 				if u, isU := j.(*ssa.UnOp); isU && token.ARROW == u.Op {
 					return true
 				}
+				/* defer func() { <-done }(): the wait runs when the
+				function returns, before its caller goes on. */
+				if d, isD := j.(*ssa.Defer); isD {
+					if lit, _ := closureOf(d.Common().Value); nil != lit && 0 != len(lit.Blocks) {
+						for _, k := range lit.Blocks[0].Instrs {
+							if u, isU := k.(*ssa.UnOp); isU && token.ARROW == u.Op {
+								return true
+							}
+							if cc := callCommon(k); nil != cc && strings.HasSuffix(calleeName(cc), ").Wait") {
+								return true
+							}
+						}
+					}
+				}
 				_, isSel := j.(*ssa.Select)
 				return isSel
 			}
@@ -1019,4 +1035,36 @@ func nilGuardOf(p *Prog, fn *ssa.Function, fcall *ssa.Call) (*ssa.If, int, bool)
 		}
 	}
 	return nil, -1, false
+}
+
+
+// lineNLBytes: v is append(append(b[:0], line...), '\n') (or onto nil): the
+// bytes of the received line followed by exactly one newline.
+func lineNLBytes(v, line ssa.Value) bool {
+	outer, ok := stripConv(v, true).(*ssa.Call)
+	if !ok || "builtin.append" != calleeName(outer.Common()) || 2 != len(outer.Call.Args) {
+		return false
+	}
+	el := variadicElems(outer.Common())
+	if 1 != len(el) {
+		return false
+	}
+	if k, isK := constInt(el[0]); !isK || '\n' != k {
+		return false
+	}
+	inner, ok := outer.Call.Args[0].(*ssa.Call)
+	if !ok || "builtin.append" != calleeName(inner.Common()) || 2 != len(inner.Call.Args) {
+		return false
+	}
+	if stripConv(inner.Call.Args[1], true) != stripConv(line, true) {
+		return false
+	}
+	switch d := inner.Call.Args[0].(type) {
+	case *ssa.Slice:
+		k, isK := constInt(d.High)
+		return nil != d.High && isK && 0 == k && nil == d.Low
+	case *ssa.Const:
+		return d.IsNil()
+	}
+	return false
 }
